@@ -24,6 +24,7 @@
 #include "path.h"
 #include "pathmatch.h"
 #include "utils.h"
+#include "verifev.h"
 #include "token.h"
 #include "tokenlist.h"
 #include "settings.h"
@@ -284,6 +285,8 @@ std::string SuppressionList::addSuppressionLine(const std::string &line)
 std::string SuppressionList::addSuppression(SuppressionList::Suppression suppression)
 {
     std::lock_guard<std::mutex> lg(mSuppressionsSync);
+    VERIF_EV_LOCKED("mSuppressionsSync", lg);
+    VERIF_EV("wr", "mSuppressions");
 
     // Check if suppression is already in list
     auto foundSuppression = std::find_if(mSuppressions.begin(), mSuppressions.end(),
@@ -328,6 +331,8 @@ std::string SuppressionList::addSuppressions(std::list<Suppression> suppressions
 bool SuppressionList::updateSuppressionState(const SuppressionList::Suppression& suppression)
 {
     std::lock_guard<std::mutex> lg(mSuppressionsSync);
+    VERIF_EV_LOCKED("mSuppressionsSync", lg);
+    VERIF_EV("wr", "mSuppressions");
 
     // Check if suppression is already in list
     auto foundSuppression = std::find_if(mSuppressions.begin(), mSuppressions.end(),
@@ -471,6 +476,8 @@ bool SuppressionList::Suppression::isMatch(const SuppressionList::ErrorMessage &
 bool SuppressionList::isSuppressed(const SuppressionList::ErrorMessage &errmsg, bool global)
 {
     std::lock_guard<std::mutex> lg(mSuppressionsSync);
+    VERIF_EV_LOCKED("mSuppressionsSync", lg);
+    VERIF_EV("wr", "mSuppressions");
 
     // TODO: handle unmatchedPolyspaceSuppression?
     const bool unmatchedSuppression(errmsg.errorId == "unmatchedSuppression");
@@ -489,6 +496,8 @@ bool SuppressionList::isSuppressed(const SuppressionList::ErrorMessage &errmsg, 
 bool SuppressionList::isSuppressedExplicitly(const SuppressionList::ErrorMessage &errmsg, bool global)
 {
     std::lock_guard<std::mutex> lg(mSuppressionsSync);
+    VERIF_EV_LOCKED("mSuppressionsSync", lg);
+    VERIF_EV("wr", "mSuppressions");
 
     for (Suppression &s : mSuppressions) {
         if (!global && !s.isLocal())
@@ -505,6 +514,8 @@ bool SuppressionList::isSuppressed(const ::ErrorMessage &errmsg, const std::set<
 {
     {
         std::lock_guard<std::mutex> lg(mSuppressionsSync);
+        VERIF_EV_LOCKED("mSuppressionsSync", lg);
+        VERIF_EV("wr", "mSuppressions");
 
         if (mSuppressions.empty())
             return false;
@@ -515,6 +526,8 @@ bool SuppressionList::isSuppressed(const ::ErrorMessage &errmsg, const std::set<
 void SuppressionList::dump(std::ostream & out, const std::string& filePath) const
 {
     std::lock_guard<std::mutex> lg(mSuppressionsSync);
+    VERIF_EV_LOCKED("mSuppressionsSync", lg);
+    VERIF_EV("rd", "mSuppressions");
 
     out << "  <suppressions>" << std::endl;
     for (const Suppression &suppression : mSuppressions) {
@@ -558,6 +571,8 @@ void SuppressionList::dump(std::ostream & out, const std::string& filePath) cons
 std::list<SuppressionList::Suppression> SuppressionList::getUnmatchedLocalSuppressions(const FileWithDetails &file) const
 {
     std::lock_guard<std::mutex> lg(mSuppressionsSync);
+    VERIF_EV_LOCKED("mSuppressionsSync", lg);
+    VERIF_EV("rd", "mSuppressions");
 
     std::list<Suppression> result;
     for (const Suppression &s : mSuppressions) {
@@ -583,6 +598,8 @@ std::list<SuppressionList::Suppression> SuppressionList::getUnmatchedLocalSuppre
 std::list<SuppressionList::Suppression> SuppressionList::getUnmatchedGlobalSuppressions() const
 {
     std::lock_guard<std::mutex> lg(mSuppressionsSync);
+    VERIF_EV_LOCKED("mSuppressionsSync", lg);
+    VERIF_EV("rd", "mSuppressions");
 
     std::list<Suppression> result;
     for (const Suppression &s : mSuppressions) {
@@ -606,6 +623,7 @@ std::list<SuppressionList::Suppression> SuppressionList::getUnmatchedGlobalSuppr
 std::list<SuppressionList::Suppression> SuppressionList::getUnmatchedInlineSuppressions() const
 {
     std::list<SuppressionList::Suppression> result;
+    VERIF_EV("rd", "mSuppressions"); // no lock here: only called after the workers are joined
     for (const SuppressionList::Suppression &s : SuppressionList::mSuppressions) {
         if (!s.isInline)
             continue;
@@ -624,12 +642,16 @@ std::list<SuppressionList::Suppression> SuppressionList::getUnmatchedInlineSuppr
 std::list<SuppressionList::Suppression> SuppressionList::getSuppressions() const
 {
     std::lock_guard<std::mutex> lg(mSuppressionsSync);
+    VERIF_EV_LOCKED("mSuppressionsSync", lg);
+    VERIF_EV("rd", "mSuppressions");
 
     return mSuppressions;
 }
 
 void SuppressionList::markUnmatchedInlineSuppressionsAsChecked(const TokenList &tokenlist) {
     std::lock_guard<std::mutex> lg(mSuppressionsSync);
+    VERIF_EV_LOCKED("mSuppressionsSync", lg);
+    VERIF_EV("wr", "mSuppressions");
 
     int currLineNr = -1;
     int currFileIdx = -1;
